@@ -154,8 +154,18 @@ class SymStr(str):
     def _unmodelled(self, *a, **k):
         raise SymxError("string operation not modelled on a symbolic string")
 
+    def __getitem__(self, i):
+        """indexing / slicing with concrete positions (the length of a symbolic string is concrete on every path)"""
+        if isinstance(i, slice):
+            if not all(isinstance(b, (int, type(None))) and not hasattr(b, "term") for b in (i.start, i.stop, i.step)):
+                raise SymxError("slice with symbolic bounds is not modelled")
+            return SymStr(self.chars[i])
+        if isinstance(i, int):
+            return SymStr([self.chars[i]])
+        raise SymxError("string operation not modelled on a symbolic string")
+
     lower = upper = strip = lstrip = rstrip = replace = find = index = partition = rpartition = encode = join = _unmodelled
-    __getitem__ = __iter__ = __lt__ = __le__ = __gt__ = __ge__ = __mod__ = __mul__ = _unmodelled
+    __iter__ = __lt__ = __le__ = __gt__ = __ge__ = __mod__ = __mul__ = _unmodelled
 
 
 def fresh_str(ctx, name, max_len, min_len=0):
